@@ -2,10 +2,10 @@
 """C09 -- strict validation rejects exactly the documents the GraphQL specification calls invalid.
 spec:    spec/gql/Validation.tla: one operator per rule of section 5 (violated clauses), Valid == all empty;
          named deviations of today's implementation as switches (C.dev).
-M:       the generator state machine Gen_ValDoc.tla with its bookkeeping invariants.
-G1:      TLC enumerates (BFS of Gen_ValDoc.tla, several pool configurations) every document within the budgets over
-         name pools that contain undefined fields / types / arguments / directives / fragments / variables, wrong
-         argument values, non-input variable types ... so valid and invalid documents arise side by side.
+M:       the generator state machine Gen_ValDoc.tla with its bookkeeping invariants (complete for a small pool).
+G1:      TLC enumerates (BFS of Gen_ValDoc.tla, one run over several pool configurations) every document within the
+         budgets over name pools that contain undefined fields / types / arguments / directives / fragments /
+         variables, wrong argument values, non-input variable types ... so valid and invalid documents arise side by side.
 G2:      seeded random valid documents (lib/valgen.py) and rule-targeted mutations of them.
 harness: c09 executes every case with ValidationMode::Strict on the derive-built schema and on the dynamic schema
          built from schemas/valid.json (both compared with the JSON through introspection at start-up); a recording
@@ -18,19 +18,19 @@ import vlib, valgen
 
 SCHEMA = os.path.join(vlib.ROOT, "schemas", "valid.json")
 
+
 def run_g1(c, confs):
     mod = valgen.write_gen_module(c.work, "GenRun", confs, ["TypeOK", "DepthOK", "NoEmptySet", "Emit"])
-    g = vlib.run_tlc(mod, c.path("GenRun.cfg"), workers=8, timeout=3000, keep_lines=20, xmx="6g")
+    g = vlib.run_tlc(mod, c.path("GenRun.cfg"), workers=8 if not c.quick else 6, timeout=6000, keep_lines=20, xmx="8g")
     if g.invariant_violated:
         raise vlib.ToolError("generator invariant %s violated" % g.invariant_violated)
-    c.add_tlc("G1 Gen_ValDoc (%d configurations)" % len(confs), g)
     out = {label: set() for label in confs}
     for t in g.tagged("REPLAY"):
         out[t[1]].add(t[2])
     empty = [k for k, v in out.items() if not v]
     if empty:
         raise vlib.ToolError("generator configuration without documents: %s" % empty)
-    return {k: sorted(v) for k, v in out.items()}
+    return g, {k: sorted(v) for k, v in out.items()}
 
 
 def parse_v(v, legend):
@@ -42,26 +42,66 @@ def parse_v(v, legend):
     return "violation:" + v[2:]
 
 
+def judge(c, path):
+    """mode V on a recorded trace: (tlc result, legend, {case id: (verdict string, violated clauses)})"""
+    v = vlib.run_tlc_sliced("gql/ValidationTrace.tla", "gql/ValidationTrace.cfg", path, env={"SCHEMA": SCHEMA},
+                            slices=6 if c.quick else 8, timeout=6000, keep_lines=60, xmx="3g")
+    legend = {"D": {}, "C": {}}
+    for t in v.tagged("LEGEND"):
+        legend[t[1]][t[2]] = t[3]
+    out = {t[1]: (parse_v(t[2], legend), [legend["C"][int(i)] for i in t[3].split(".") if i]) for t in v.tagged("VERDICT")}
+    return v, legend, out
+
+
+def run_harness(c):
+    (binary,) = vlib.build_harness(["c09"])
+    p = vlib.run_harness(binary, [c.path("cases.ndjson"), c.path("trace.ndjson"), SCHEMA], timeout=3000)
+    if p.returncode != 0:
+        raise vlib.ToolError("c09 harness failed: " + p.stderr[-3000:])
+    return vlib.read_ndjson(c.path("trace.ndjson"))
+
+
+def replay(c):
+    """./check C09 --replay <file>: one recorded case again through the harness and TLC"""
+    with open(c.replay) as f:
+        case = json.load(f)["case"]
+    one = {"id": 1, "src": case.get("src", "replay"), "flavour": case["flavour"], "doc": case["doc"], "opName": case["opName"], "vars": case["vars"]}
+    vlib.write_ndjson(c.path("cases.ndjson"), [one])
+    o = run_harness(c)[0]
+    _, _, out = judge(c, c.path("trace.ndjson"))
+    vd, clauses = out[1]
+    print("document : %s" % o["text"])
+    print("variables: %s   flavour: %s" % (json.dumps(o["vars"]), o["flavour"]))
+    print("observed : %s" % json.dumps(o["obs"]))
+    print("spec     : %s" % (clauses or "valid"))
+    print("verdict  : %s" % vd)
+    c.verdict(vd, o, "validation disagrees with the specification")
+    sys.exit(1 if c.violations else 0)      # a replay is one case: no evidence file, no vacuity accounting
+
+
 def body(c):
+    if c.replay:
+        replay(c)
     ts = json.load(open(SCHEMA))
     rng = random.Random(c.seed)
-    # ---- M: the generator state machine with its invariants (small pools, complete) ----
-    mconf = {"mc": dict(valgen.BASE, MaxNodes=3, MaxSecs=2, MaxAlias=1, MaxArgs=1, MaxDirs=1, MaxVars=1, OpHeads=["query:Q"], FragNames=["F1"],
+    # ---- M (generator state machine, small pool, complete) and G1, side by side: JVM start-up dominates on a loaded machine ----
+    mconf = {"mc": dict(valgen.BASE, MaxNodes=3, MaxSecs=2, MaxAlias=0, MaxArgs=1, MaxDirs=1, MaxVars=0, OpHeads=["query:Q"], FragNames=["F1"],
                         Fields=["a", "id"], OpenOnly=["a"], LeafOnly=["id"], Conds=["A"], Spreads=["F1"], ArgPool=["x=int1"], DirPool=["skip(if=true)"], VarPool=["v|Int||"])}
     mmod = valgen.write_gen_module(c.work, "MC_GenValDoc", mconf, ["TypeOK", "DepthOK", "NoEmptySet"])
     confs = valgen.g1_configs(c.quick)
-    with ThreadPoolExecutor(2) as ex:          # M and G1 side by side (JVM start-up dominates on a loaded machine)
+    with ThreadPoolExecutor(2) as ex:
         fm = ex.submit(vlib.run_tlc, mmod, c.path("MC_GenValDoc.cfg"), workers=2, timeout=900, coverage=True, keep_lines=2000)
         fg = ex.submit(run_g1, c, confs)
-        m, g1 = fm.result(), fg.result()
+        m, (g, g1) = fm.result(), fg.result()
     if m.invariant_violated:
         raise vlib.ToolError("design-level failure in Gen_ValDoc.tla: " + str(m.invariant_violated))
     for act in ("AddField", "AddInline", "AddSpread", "Close", "NewSection"):
         if m.coverage.get("Gen_ValDoc!" + act, (0, 0))[1] == 0:
-            raise vlib.ToolError("generator action %s never taken" % act)
+            raise vlib.ToolError("generator action %s never taken in mode M" % act)
     c.add_tlc("M Gen_ValDoc", m)
-    # ---- G1 ----
-    cap = 200 if c.quick else 30000
+    c.add_tlc("G1 Gen_ValDoc (%d configurations)" % len(confs), g)
+    # ---- G1 cases ----
+    cap = 150 if c.quick else 12000
     cases, exhaustive, g1_total = [], True, 0
     for label in sorted(g1):
         docs = g1[label]
@@ -72,13 +112,13 @@ def body(c):
         for i, s in enumerate(docs):
             doc = valgen.tree_from_sections(json.loads(s))
             name, supplied = valgen.supply(ts, doc, rng)
-            flavours = ("static", "dynamic") if (not c.quick or i % 3 == 0) else (("static",) if i % 3 == 1 else ("dynamic",))
+            flavours = ("static", "dynamic") if i % 3 == 0 else (("static",) if i % 3 == 1 else ("dynamic",))
             for fl in flavours:
                 cases.append({"id": 0, "src": "G1:" + label, "flavour": fl, "doc": doc, "opName": name, "vars": supplied})
     n_g1 = len(cases)
-    # ---- G2 ----
+    # ---- G2 cases ----
     gen = valgen.ValidDocGen(ts, random.Random(c.seed + 99))
-    nbase = 200 if c.quick else 4000
+    nbase = 160 if c.quick else 5000
     per = 3 if c.quick else 6
     names = [n for n, _ in valgen.MUTATIONS]
     k = 0
@@ -101,33 +141,22 @@ def body(c):
                         variants.append((mm[0] + "+" + m2[0], m2[1]))
         for mname, doc in variants:
             name, supplied = valgen.supply(ts, doc, rng)
-            fl = ("static", "dynamic") if (not c.quick or mname == "base") else (rng.choice(["static", "dynamic"]),)
+            fl = ("static", "dynamic") if mname == "base" else (rng.choice(["static", "dynamic"]),)
             for f in fl:
                 cases.append({"id": 0, "src": "G2:" + mname, "flavour": f, "doc": doc, "opName": name, "vars": supplied})
     for i, x in enumerate(cases):
         x["id"] = i + 1
     vlib.write_ndjson(c.path("cases.ndjson"), cases)
-    # ---- harness ----
-    (binary,) = vlib.build_harness(["c09"])
-    p = vlib.run_harness(binary, [c.path("cases.ndjson"), c.path("trace.ndjson"), SCHEMA], timeout=3000)
-    if p.returncode != 0:
-        raise vlib.ToolError("c09 harness failed: " + p.stderr[-3000:])
-    # ---- V ----
-    v = vlib.run_tlc_sliced("gql/ValidationTrace.tla", "gql/ValidationTrace.cfg", c.path("trace.ndjson"), env={"SCHEMA": SCHEMA},
-                            slices=6 if c.quick else 8, timeout=6000, keep_lines=60, xmx="3g")
+    # ---- harness, V ----
+    obs = run_harness(c)
+    v, legend, verdicts = judge(c, c.path("trace.ndjson"))
     c.add_tlc("V ValidationTrace", v)
-    legend = {"D": {}, "C": {}}
-    for t in v.tagged("LEGEND"):
-        legend[t[1]][t[2]] = t[3]
-    verdicts = {t[1]: (t[2], t[3]) for t in v.tagged("VERDICT")}
-    obs = vlib.read_ndjson(c.path("trace.ndjson"))
     if len(verdicts) != len(obs):
         raise vlib.ToolError("V produced %d verdicts for %d cases" % (len(verdicts), len(obs)))
     stats = {"valid": 0, "invalid": 0, "rejected": 0, "by_clause": {}, "by_src": {}, "late_errors_valid": 0, "late_errors_known": 0}
     late_samples = []
     for o in obs:
-        vd, ideal = verdicts[o["id"]]
-        clauses = [legend["C"][int(i)] for i in ideal.split(".") if i]
+        vd, clauses = verdicts[o["id"]]
         rejected = o["obs"]["parseErr"] or o["obs"]["validationErr"]
         stats["valid" if not clauses else "invalid"] += 1
         stats["rejected"] += bool(rejected)
@@ -145,8 +174,8 @@ def body(c):
                 stats["late_errors_known"] += 1
         c.count_case({"t": o["text"], "v": o["vars"], "f": o["flavour"], "o": o["opName"]}, nontrivial=True)
         slim = {"text": o["text"], "flavour": o["flavour"], "opName": o["opName"], "vars": o["vars"], "src": o["src"], "spec_violations": clauses, "obs": o["obs"], "doc": o["doc"]}
-        c.verdict(parse_v(vd, legend), slim, "%s: spec says %s, implementation %s" % (vd, clauses or "valid", "rejected" if rejected else "accepted"))
-    # vacuity: every rule must have been violated by some case and valid documents must be present
+        c.verdict(vd, slim, "%s: spec says %s, implementation %s" % (vd, clauses or "valid", "rejected" if rejected else "accepted"))
+    # vacuity: every clause must have been violated by some case and valid documents must be present
     missing = [cl for cl in legend["C"].values() if cl not in stats["by_clause"] and not cl.startswith("DocumentedRestrictions")]
     if missing:
         raise vlib.ToolError("vacuous: no generated document violates " + ", ".join(missing))
@@ -156,20 +185,20 @@ def body(c):
     c.cov["exhaustive"] = exhaustive
     c.cov["stats"] = stats
     if stats["late_errors_valid"]:
-        c.notes.append("valid, accepted documents whose response still carried errors (not judged here, argument coercion belongs to C06): %d, e.g. %s"
+        c.notes.append("valid, accepted documents whose response still carried errors (not judged here; argument coercion belongs to C06): %d, e.g. %s"
                        % (stats["late_errors_valid"], json.dumps(late_samples)[:1500]))
     c.cov["rule"] = ("G1: every document within the budgets of %d pool configurations of Gen_ValDoc.tla (TLC BFS: %d documents%s; pools contain undefined names, "
                      "non-composite / non-overlapping type conditions, wrong-kind values, non-input and unknown variable types, unknown / misplaced / repeated directives, "
                      "several operations and fragment definitions); G2: %d seeded random valid documents x rule-targeted mutations (%d kinds, round-robin + random, some second-order); "
                      "variables get valid values of their declared type or are left out; static and dynamic flavour; %d G1 cases + %d G2 cases; "
                      "distinct by (text, variables, flavour); every case exercises the property (valid => accepted, invalid => rejected before execution)"
-                     % (len(confs), g1_total, "" if exhaustive else ", seeded sample per configuration", nbase, len(names), n_g1, len(cases) - n_g1))
+                     % (len(confs), g1_total, "" if exhaustive else ", seeded sample of %d per configuration" % cap, nbase, len(names), n_g1, len(cases) - n_g1))
     shown = set()
     for o in obs:
         vd = verdicts[o["id"]][0]
         if vd not in shown and len(shown) < 3:
             shown.add(vd)
-            c.sample({"text": o["text"], "vars": o["vars"], "flavour": o["flavour"], "rejected": o["obs"]["parseErr"] or o["obs"]["validationErr"], "verdict": parse_v(vd, legend)})
+            c.sample({"text": o["text"], "vars": o["vars"], "flavour": o["flavour"], "rejected": o["obs"]["parseErr"] or o["obs"]["validationErr"], "verdict": vd})
     c.assumptions += ["the harness document printer is trusted; schemas/valid.json is compared with the compiled and the dynamic schema through introspection at start-up",
                       "supplied variable values are valid for the declared variable type (variable coercion failures are not judged here)",
                       "nested list input types are not used (the October 2021 table for [[Int]] contradicts its prose)",
